@@ -355,11 +355,16 @@ def route_removal(state: VRPState, rng: Random, n_routes: int = 1) -> VRPState:
     n = min(n_routes, len(non_empty))
     to_remove_vehicles = rng.sample(non_empty, n)
 
+    to_remove: set[int] = set()
     for v in to_remove_vehicles:
-        state.unassigned.update(state.routes[v])
-        state.routes[v] = []
-        state.arrival_times[v] = []
+        to_remove.update(state.routes[v])
 
+    # multi-resource customers also sit on other routes
+    for v in range(len(state.routes)):
+        state.routes[v] = [c for c in state.routes[v] if c not in to_remove]
+
+    state.unassigned.update(to_remove)
+    state.update_arrival_times()
     return state
 
 
